@@ -31,6 +31,22 @@ def make(N, s, route="direct"):
     return Harness("clamp_%s_%d_%s" % (s, N, route), args, body, out=("float", 2), meta={"N": N, "S": s, "route": route})
 
 
+def inf_cases(rank, kind):
+    """For floating coordinates an ordering also comes with the choice whether its greatest atoms are +inf and its least
+    atoms are -inf (infinities are ordinary coordinates; NaN is excluded by the property)."""
+    if kind != 'float':
+        return [{}]
+    top, bot = max(rank.values()), min(rank.values())
+    T = {a: 1 for a, r in rank.items() if r == top}
+    B = {a: -1 for a, r in rank.items() if r == bot}
+    out = [{}, T, B]
+    if top != bot:
+        both = dict(T)
+        both.update(B)
+        out.append(both)
+    return out
+
+
 def expected_clamp(rank, c, lo, hi):
     if rank[c] < rank[lo]:
         return rank[lo]
@@ -112,18 +128,25 @@ def run(rep, tier):
                 rank = {c: r[0], lo: r[1], hi: r[2]}
                 if rank[lo] > rank[hi]:
                     continue
-                ev = ir.OrdEval(rank, kind)
-                v = ev.value(t)
+                failed = False
                 oi = "%s c,lo,hi ranks=%s" % (ki, r)
-                if v is None:
-                    raise AnalysisBroken("C10 %s: argument is not a comparison/select tree over its atoms: %s" % (ki, ir.show(t, names)))
-                if v not in rank:
-                    rep.fail("C10.ord", ki, ir.where(call.inst), "for ordering ranks(c,lo,hi)=%s the backend is queried at %s, which is none of c, lo, hi" % (r, ir.show(v, names)[:80]), {"ordering": r})
-                    break
-                bad_pred |= set(ev.bad_pred)
-                if rank[v] != expected_clamp(rank, c, lo, hi):
-                    rep.fail("C10.ord", ki, ir.where(call.inst), "for ordering ranks(c,lo,hi)=%s the backend is queried at %s instead of the clamp; argument = %s" % (
-                        r, names.get(v, ir.show(v)), ir.show(t, names)), {"ordering": r})
+                for inf in inf_cases(rank, kind):
+                    ev = ir.OrdEval(rank, kind, inf)
+                    v = ev.value(t)
+                    tag = "" if not inf else " with " + ", ".join("%s = %sinf" % (names.get(a, ir.show(a)), "+" if sg > 0 else "-") for a, sg in inf.items())
+                    if v is None:
+                        raise AnalysisBroken("C10 %s: argument is not a comparison/select tree over its atoms: %s" % (ki, ir.show(t, names)))
+                    if v not in rank:
+                        rep.fail("C10.ord", ki, ir.where(call.inst), "for ordering ranks(c,lo,hi)=%s%s the backend is queried at %s, which is none of c, lo, hi" % (r, tag, ir.show(v, names)[:80]), {"ordering": r})
+                        failed = True
+                        break
+                    bad_pred |= set(ev.bad_pred)
+                    if rank[v] != expected_clamp(rank, c, lo, hi):
+                        rep.fail("C10.ord", ki, ir.where(call.inst), "for ordering ranks(c,lo,hi)=%s%s the backend is queried at %s instead of the clamp; argument = %s" % (
+                            r, tag, names.get(v, ir.show(v)), ir.show(t, names)), {"ordering": r})
+                        failed = True
+                        break
+                if failed:
                     break
                 rep.ok("C10.ord", oi, sample={"instance": ki, "ranks(c,lo,hi)": r, "result": names[v]} if (k == 0 and r == (0, 1, 2)) else None)
             if bad_pred:
